@@ -28,7 +28,8 @@ RULE = ('(streams) momentum, SMA and volatility signals built over 1-5 assets wi
         'last maxlen point-in-time 21:00 prices of the business days from max(start, entry) on, warmup == number of '
         'business days, and the values seen at a rebalance equal the oracle over the closes up to that instant. '
         '1e-9 relative. Non-trivial = stream longer than the lookback (window slides), >= 2 lookbacks and >= 2 '
-        'assets; sessions: >= 1 late entrant.')
+        'assets; sessions: >= 1 late entrant.'
+        " Round-10 reach: a quarter of the sessions build the signals collection on a data handler of its own (the same files with the opposite price adjustment); buffers and values are compared with that feed's closes.")
 ASSUMPTIONS = [
     'positive prices; lookbacks 1..30; up to 5 assets; streams up to 60 steps; sessions up to 60 days',
     'in sessions the market has data before every entry (an unpriced asset is C06/C07\'s subject)',
@@ -261,6 +262,8 @@ def _verify_sess(case, r, label):
     start = cal.ts6(cfg['start'])
     days = cal.bdays(d0, d1)
     adjust = cfg.get('adjust', True)
+    if cfg.get('signals_feed') == 'other_adjustment':
+        adjust = not adjust                       # the closes the signals are fed come from their own handler
     obs = {'EQ:' + s: observations(rows, adjust) for s, rows in mk.items()}
     ucfg = cfg.get('signal_universe') or cfg['universe']      # the universe the signals watch
     entry = {}
@@ -362,6 +365,9 @@ def sessions(draw):
     if draw(st.sampled_from([False, False, False, True])):
         cfg['extra_clock_events'] = True
         lab = lab + ['clock_with_pre_and_post_market_events']
+    if draw(st.sampled_from([False, False, False, True])):
+        cfg['signals_feed'] = 'other_adjustment'
+        lab = lab + ['signals_on_a_data_handler_of_their_own']
     return {'cfg': cfg, 'market': mk, 'labels': lab + (['gappy_market'] if gappy else ['dense_market']),
             'rerun_shared': draw(st.booleans())}
 
